@@ -12,7 +12,11 @@ from pyvc.values import And_, Or_, Not_
 
 
 def _pkt(o):
-    return getattr(o, "packet", None)
+    p = getattr(o, "packet", None)
+    if p is None and getattr(o, "packet_holder", None) is not None:
+        p = o.packet_holder.pdu
+        p = getattr(p, "val", p)
+    return p
 
 
 def _some_abandon(o):
@@ -51,4 +55,5 @@ def _cancel_eof(o):
 
 FINDING_CLASSES = {
     "F5c": _some_abandon,
+    "F26": _eof_packet,
 }
